@@ -25,7 +25,7 @@ META = {
         "R03.5": "loop audit over the evaluation call graph",
     },
     "trusted_base": ["std Vec/Option/Result, usize::checked_add", "Cursor<Vec<u8>> as Write never fails", "uecfacts driver + uecheck rule engine (pushfx, cfg)"],
-    "assumptions": ["S1 (size <= max at instruction entry)", "every input variable the program mentions has been bound (property proviso)"],
+    "assumptions": ["S1 (size <= max at instruction entry)", "every input variable the program mentions has been bound (property proviso)", "S2: HasStack::stack::<T>() and stack_mut::<T>() name the same stack (decided for the derived impls by C19's accessor clause; hand-written impls are the user's)"],
     "not_decided": ["native stack depth; output buffer memory"],
 }
 
